@@ -17,6 +17,8 @@ EXPLANATION = ('B2-CONST/COMPRESS/UPDATE, A2-SKELETON/XOR/INDEX/H0/HPRIME, SPEC-
 CLAIM += (' The engines that compute the hash are held against the same specification sections: what the x86-64, A64 and RV64 back-ends emit for the integer, memory-form and (x86) floating-point instructions (X86- / A64- / RV-HSEM, -MEM-HSEM, X86-FP-HSEM, A64-IMMHELP), the hand-written dataset reads (A64- / RV-DSREAD-HSEM) and the order of the end-of-iteration stores - r0-r7 before f0-f3, because the two scratchpad lines can coincide (X86-LOOPSTORE, A64- / RV-RT-STOREORDER).')
 EXPLANATION += ' X86-HSEM/-MEM/-FP, A64-HSEM/-MEM, A64-IMMHELP, RV-HSEM/-MEM, A64-/RV-DSREAD-HSEM, X86-LOOPSTORE, A64-/RV-RT-STOREORDER.'
 
+EXPLANATION += ' X86-/A64-/RV-LOOPLOAD.'
+
 
 def run(ctx, R):
     F = astq.Facts(ctx, 'K0')
